@@ -58,6 +58,6 @@ Theorem C14_call_means_body :
   map (meaning p' (f_bodyid f) val dv opsem (bindv val dv (gargsP p' (f_bodyid f)) av)) (gresP p' (f_bodyid f)).
 Proof. intros p r m i o H Hi Ho p' f Hf val dv opsem Hext av. apply build_checked_inv in H. destruct H as [_ Hv].
   pose proof (function_plan_checked p r m i o Hi Ho Hv f Hf) as Hc. fold p' in Hc.
-  assert (Ha : acyclic_b p' (f_bodyid f) = true) by (unfold check_plan in Hc; apply andb_prop in Hc; tauto).
+  assert (Ha : acyclic_b p' (f_bodyid f) = true) by (unfold check_plan in Hc; apply andb_prop in Hc; destruct Hc as [Hc _]; apply andb_prop in Hc; tauto).
   exact (plan_sem p' (f_bodyid f) Ha val dv opsem Hext _ Hc av). Qed.
 Print Assumptions C14_call_means_body.
